@@ -79,7 +79,7 @@ def run(tier):
 
     def model_runs(d):
         out = ec.catalogue_model_runs(d, tier, shapes=fshapes, ops=1, kinds=('rerun', 'skip'), tag='_r1', liveness_for=(),
-                                      only=(None if tier == 'thorough' else small + ('items3_c0_err1', 'nested_join_inner_uncreated_err', 'diamond_j1_berr')),
+                                      only=(None if tier == 'thorough' else small + ('items3_c0_err1', 'nested_join_inner_uncreated_err', 'diamond_j1_berr', 'rev_diamond_err', 'rev_two_roots')),
                                       schedulers=('default', 'legacy'))
         out += ec.catalogue_model_runs(d, tier, shapes=fshapes, ops=2, kinds=('rerun', 'skip'), tag='_r2', liveness_for=(),
                                        only=('linear_handled', 'items2_c1_err1', 'diamond_j-1_aerr') if tier == 'quick' else small)
